@@ -3,3 +3,6 @@ open Emboss.Lr1
 #print axioms C09_bisim_sound
 #print axioms C09_equal_tables
 #print axioms C09_cached_is_documented
+#print axioms C09_mark_error_preserves_parse
+#print axioms C09_mark_error_deterministic
+#print axioms C09_mark_error_order_independent
